@@ -139,10 +139,29 @@ class GenFacts:
             pushes = [e for e in ev if e.kind == 'call' and e.func in ('.append', '.appendleft') and e.recv is not None
                       and src(e.recv) == 'self.loop_info' and e.args]
             pops = [e for e in ev if e.kind == 'call' and e.func in ('.pop', '.popleft') and e.recv is not None and src(e.recv) == 'self.loop_info']
-            if len(pushes) != 1 or len(pops) != 1:
+            attr_proto = None
+            if not pushes and not pops:
+                # the save / set / restore protocol on one attribute: `saved = self.A; self.A = Record(..); <body>; self.A = saved`
+                for i_, e_ in enumerate(ev):
+                    if e_.kind == 'assign' and e_.target.startswith('self.') and e_.target.count('.') == 1 and \
+                            isinstance(e_.value, (ast.Call, ast.Name)):
+                        val_ = e_.value if isinstance(e_.value, ast.Call) else efg.reaching_value(ev, i_, e_.value.id)
+                        if not (isinstance(val_, ast.Call) and isinstance(val_.func, ast.Name) and val_.func.id in self.repo.classes(GEN)):
+                            continue
+                        saves = [j for j in range(i_) if ev[j].kind == 'assign' and src(ev[j].value) == e_.target and
+                                 isinstance(ev[j].value, ast.Attribute)]
+                        rest = [j for j in range(i_ + 1, len(ev)) if ev[j].kind == 'assign' and ev[j].target == e_.target and saves and
+                                isinstance(ev[j].value, ast.Name) and ev[j].value.id == ev[saves[-1]].target]
+                        if saves and rest:
+                            attr_proto = (e_.target, i_, rest[0], val_)
+                            break
+            if attr_proto is None and (len(pushes) != 1 or len(pops) != 1):
                 continue
-            arg = pushes[0].args[0]
-            idx = ev.index(pushes[0])
+            if attr_proto is not None:
+                arg, idx = attr_proto[3], attr_proto[1]
+            else:
+                arg = pushes[0].args[0]
+                idx = ev.index(pushes[0])
             if isinstance(arg, ast.Name):
                 arg = efg.reaching_value(ev, idx, arg.id)
             if not (isinstance(arg, ast.Call) and isinstance(arg.func, ast.Name)):
@@ -170,7 +189,9 @@ class GenFacts:
                     roles['break'] = f
             rec = {'cls': cname, 'fields': fields, 'values': values, 'roles': roles,
                    'arrays_is_count': values.get(roles.get('arrays')) == 'self.stack.array_num',
-                   'push': pushes[0].func, 'pop': pops[0].func, 'push_index': idx, 'pop_index': ev.index(pops[0]), 'events': ev}
+                   'push': pushes[0].func if attr_proto is None else 'attr', 'pop': pops[0].func if attr_proto is None else 'attr',
+                   'attr': attr_proto[0] if attr_proto is not None else None,
+                   'push_index': idx, 'pop_index': ev.index(pops[0]) if attr_proto is None else attr_proto[2], 'events': ev}
             break
         if rec is None:
             raise AnalysisError('loop record: cannot find the record pushed to self.loop_info in the LoopBlock arm of gen_block')
@@ -194,7 +215,9 @@ class GenFacts:
             node = node.value
         chain.reverse()
         base = src(node)
-        want_base = 'self.loop_info[-1]' if rec['push'] == '.append' else 'self.loop_info[0]'
+        if rec['push'] == 'attr' and base == 'self' and chain and f'self.{chain[0]}' == rec['attr']:
+            base, chain = rec['attr'], chain[1:]
+        want_base = rec['attr'] if rec['push'] == 'attr' else 'self.loop_info[-1]' if rec['push'] == '.append' else 'self.loop_info[0]'
         if base != want_base or not chain:
             return None
         inv = {f: r for r, f in rec['roles'].items()}
